@@ -37,7 +37,10 @@ type Case struct {
 	Signer      string      `json:"signer"` // ca | sibling (only with verify_log / none)
 	Strict      bool        `json:"strict"`
 	Distract    int         `json:"distract"` // distractor CRLs of other issuers (configured files)
-	Background  bool        `json:"background"`
+	// DistractURL: a further CRL of another issuer is configured as crl_url (so that crl_urls and crl_files are both in use
+	// when the list that matters is a crl_file)
+	DistractURL bool `json:"distract_url,omitempty"`
+	Background  bool `json:"background"`
 }
 
 func genCase(t *rapid.T) Case {
@@ -55,6 +58,7 @@ func genCase(t *rapid.T) Case {
 		Signer:      "ca",
 		Strict:      rapid.Bool().Draw(t, "strict"),
 		Distract:    rapid.IntRange(0, 2).Draw(t, "distract"),
+		DistractURL: rapid.Bool().Draw(t, "distracturl"),
 		Background:  rapid.IntRange(0, 4).Draw(t, "bg") == 0,
 	}
 	c.Alg = rapid.SampledFrom(gen.CompatibleAlgs(gen.K(c.CAKey))).Draw(t, "alg")
@@ -262,6 +266,13 @@ func runCase(c Case, x *ev.Ctx) error {
 		crlCfg["crl_urls"] = []string{crlOrigin.URL("/certdist?cmd=crl&issuer=CA1"), crlOrigin.URL("/certdist?cmd=crl&issuer=CA2")}
 		crlCfg["trusted_signature_certs_files"] = append(crlCfg["trusted_signature_certs_files"].([]string), writePEM(dir, "decoy.pem", decoy.Root))
 	}
+	if c.DistractURL && c.Source != "crl_url-query-twin" {
+		other := world.NewSimplePKI(name+" distract url", "p256d", "")
+		crlOrigin.Serve("/distract-url.crl", other.CRL(1, c.Listed.SerialHex, "0c0ffee2"))
+		urls, _ := crlCfg["crl_urls"].([]string)
+		crlCfg["crl_urls"] = append([]string{crlOrigin.URL("/distract-url.crl")}, urls...)
+		crlCfg["trusted_signature_certs_files"] = append(crlCfg["trusted_signature_certs_files"].([]string), writePEM(dir, "durl.pem", other.Root))
+	}
 	if len(files) > 0 {
 		crlCfg["crl_files"] = files
 	}
@@ -352,7 +363,7 @@ var spec = ev.Spec[Case]{
 	ID:          "C01",
 	Gen:         genCase,
 	Run:         runCase,
-	Rule:        "rapid draws a PKI (14 CA keys, depth 1..2), a well-formed CRL accepted under the drawn signature policy (verify: signed by the CA; verify_log/none: also by a same-name sibling), N in {1, 2..10, 60..140 (around the 4 KiB window), 141..600, 601..3000} entries, the listed entry at first/last/middle/random position with a serial of 1..20 bytes (incl. 2^63 / 2^64 edges, high-bit bytes), UTC/Generalized date and entry extensions, v1 or v2, DER / PEM-LF / PEM-CRLF; source in {crl_files, crl_urls, the certificate's CDP, the CDP of another certificate seen before}; for configured sources the certificate's own CDP may be unusable (ldap only, 404, garbage); 0..2 distractor CRLs listing the same serial under other issuers; storage, fetch mode, mode in {unset, prefer_ocsp, prefer_crl, crl_only}, OCSP side in {no AIA, good, unknown, unavailable}. Run through the real module (JSON -> LoadModuleByID -> VerifyClientCertificate). Oracle: the listed certificate is rejected; vacuity guard: an unlisted sibling certificate is accepted first. Non-trivial: N >= 2 or serial > 8 bytes or PEM; distinct by (source, storage, mode, encoding, N bucket, position class, serial, extensions, version, OCSP side, policy).",
+	Rule:        "rapid draws a PKI (14 CA keys, depth 1..2), a well-formed CRL accepted under the drawn signature policy (verify: signed by the CA; verify_log/none: also by a same-name sibling), N in {1, 2..10, 60..140 (around the 4 KiB window), 141..600, 601..3000} entries, the listed entry at first/last/middle/random position with a serial of 1..20 bytes (incl. 2^63 / 2^64 edges, high-bit bytes), UTC/Generalized date and entry extensions, v1 or v2, DER / PEM-LF / PEM-CRLF; source in {crl_files, crl_urls, the certificate's CDP, the CDP of another certificate seen before}; for configured sources the certificate's own CDP may be unusable (ldap only, 404, garbage); 0..2 distractor CRLs listing the same serial under other issuers as crl_files and optionally one as crl_url (so that both configured kinds are in use together); storage, fetch mode, mode in {unset, prefer_ocsp, prefer_crl, crl_only}, OCSP side in {no AIA, good, unknown, unavailable}. Run through the real module (JSON -> LoadModuleByID -> VerifyClientCertificate). Oracle: the listed certificate is rejected; vacuity guard: an unlisted sibling certificate is accepted first. Non-trivial: N >= 2 or serial > 8 bytes or PEM; distinct by (source, storage, mode, encoding, N bucket, position class, serial, extensions, version, OCSP side, policy).",
 	Assumptions: []string{"FNV-64 key collisions are outside the claim"},
 }
 
